@@ -39,6 +39,17 @@ func tvRandom(ctx *RunCtx, pkgs []*tv.Package) error {
 	return tvRunOpts(ctx, pkgs, o)
 }
 
+// firstCaseLine: the first line of the first case of the file (everything before it is the prelude).
+func firstCaseLine(p *tv.Package, file string) int {
+	first := 1 << 30
+	for _, c := range p.Cases {
+		if c.File == file && c.FromLine < first {
+			first = c.FromLine
+		}
+	}
+	return first
+}
+
 func tvRun(ctx *RunCtx, pkgs []*tv.Package, mode string) error {
 	return tvRunOpts(ctx, pkgs, tvOpts{Mode: mode, Validate: true})
 }
@@ -229,6 +240,12 @@ func tvRunOpts(ctx *RunCtx, pkgs []*tv.Package, o tvOpts) error {
 					for i := range tr.Errors {
 						e := &tr.Errors[i]
 						if e.File == c.File && e.Line >= c.FromLine && e.Line <= c.ToLine {
+							rej = e
+							break
+						}
+						// an error located in the import declarations (e.g. a renaming or dot import) refuses
+						// the file as a whole: every declaration that depends on the import is rejected with it
+						if c.Reject != "" && e.File == c.File && e.Line > 0 && e.Line < firstCaseLine(p, c.File) && strings.Contains(e.Message, "import") {
 							rej = e
 							break
 						}
